@@ -126,6 +126,9 @@ def run(ctx):
     # the same statements for every accepted TEXT (WellKeyed derived from the parser's state-machine invariant)
     lake_build(ctx, ["TomlVerif.Props.C18Parsed"], {"TomlVerif.Props.C18Parsed": "property theorems for every accepted text"})
     audit(ctx, "TomlVerif.Props.C18Parsed", "TomlVerif/Props/C18Parsed.lean")
+    # toml::from_str::<toml::Value> under both map builds: same verdict, values equal up to order
+    lake_build(ctx, ["TomlVerif.Props.C18Decode"], {"TomlVerif.Props.C18Decode": "property theorems: decodeValue under both map builds"})
+    audit(ctx, "TomlVerif.Props.C18Decode", "TomlVerif/Props/C18Decode.lean")
     cells = CELLS_QUICK if ctx.tier == "quick" else CELLS_ALL
     lines, meta = battery()
     rc, model, _ = run_lines(driver_path(), "c18", lines)
